@@ -12,6 +12,8 @@ import subprocess
 import sys
 import time
 
+from . import c14
+
 RUNS = 400000
 MAX_TIME_S = 90
 
@@ -26,13 +28,15 @@ def _seed(base, kind, mask, reads, short, content):
     return content + bytes(reversed(ctrl))
 
 
+_L = c14.BASES.index(c14.LEGACY)
+_B3 = c14.BASES.index("blake3")
 SEEDS = [
-    _seed(9, 0, 0, [0], 0, b"q" * 511 + b"\r\nline\r\n"),
-    _seed(9, 1, 0, [600], 0, b"a\r\nb\nc\rd\x00"),
-    _seed(9, 2, 0, [1500], 0, b"q" * 600 + b"\r\n\x00"),
+    _seed(_L, 0, 0, [0], 0, b"q" * 511 + b"\r\nline\r\n"),
+    _seed(_L, 1, 0, [600], 0, b"a\r\nb\nc\rd\x00"),
+    _seed(_L, 2, 0, [1500], 0, b"q" * 600 + b"\r\n\x00"),
     _seed(0, 0, 3, [5, 7, 1], 1, bytes(range(256))),
-    _seed(8, 1, 1, [0, 300], 2, b"\xc8" * 153 + b"a" * 359 + b"\r\n"),
-    _seed(9, 0, 4, [512], 0, b"\xc8" * 154 + b"a" * 358 + b"\r\n"),
+    _seed(_B3, 1, 1, [0, 300], 2, b"\xc8" * 153 + b"a" * 359 + b"\r\n"),
+    _seed(_L, 0, 4, [512], 0, b"\xc8" * 154 + b"a" * 358 + b"\r\n"),
 ]
 
 
